@@ -22,6 +22,8 @@ class Prop(PoolProp):
             cfg.wait_ready = False  # a worker whose begin() raised never sets begin_finished: until_all_ready would wait forever
         elif r < 0.35:
             cfg.item_fault = [(rng.randrange(cfg.n_workers), rng.randint(0, 2))]
+        if cfg.begin_fault or cfg.item_fault:
+            cfg.fault_exc = rng.choice(["RuntimeError", "RuntimeError", "SystemExit", "KeyboardInterrupt"])
         elif tier == "search" and cfg.factory and rng.random() < 0.7:
             # beyond the model's caller program (judged by the oracle only): until_all_ready() in the middle of a call,
             # while the replace thread may be exchanging workers
